@@ -47,8 +47,11 @@ CFG = {'module': 'Dnp3.Props.C03',
                  'compares octets)'],
  'level_text': 'Lean theorems over the database model for all states / operation sequences (order, exact '
                'counters, release exactly the written records once and only by clear, reset releases '
-               'nothing, overflow discards the oldest of the type and is reported, responses mark a prefix); '
-               'which session path calls clear / reset is tied by correspondence of the real task vs the '
-               'session model + event-ledger monitors',
+               'nothing, overflow discards the oldest of the type and is reported, responses mark a prefix) '
+               'and over the session model for all states / inputs, database opaque (clearWritten is applied '
+               'only at the two confirm points; every series that ends without its confirm - timeout, new '
+               'request, unsolicited retries exhausted / DISABLE_UNSOLICITED, disconnect - resets: outside a '
+               'series no record is Written); tie: correspondence of the real task vs the session model + '
+               'event-ledger monitors',
  'level_note': 'trusted: Lean kernel, harness, scripted callbacks; Rust modelled not verified; runtime '
                'scheduling outside the model'}
